@@ -27,6 +27,8 @@ use hashbrown::{
 };
 
 use super::Stages;
+#[cfg(brood_verif)]
+use super::verif as rayon;
 
 define_null!();
 
